@@ -1,4 +1,5 @@
 SPECIFICATION SSpec
-CONSTANTS MaxLen = 7
+CONSTANTS BoundedDepth = TRUE
+ MaxLen = 7
  Values = {1, 2, 3, 4}
-INVARIANTS PostOK ScanInRange CallsOK BagKept Terminates
+INVARIANTS DepthLog PostOK ScanInRange CallsOK BagKept Terminates
